@@ -322,7 +322,15 @@ macro_rules! impl_rank_small_sel {
                     // with value given by the number of bits. Thus, we must
                     // handle the case in which inv_idx is the the last
                     // inventory entry as a special case.
-                    last_block_idx = self.len().div_ceil(Self::BLOCK_BIT_SIZE);
+                    // The bit vector might continue into further upper
+                    // blocks containing so few ones that they have no
+                    // inventory entry: as above, we clip the span to
+                    // the upper block containing the rank.
+                    last_block_idx = Ord::min(
+                        self.len().div_ceil(Self::BLOCK_BIT_SIZE),
+                        (upper_block_idx + 1)
+                            * (Self::SUPERBLOCK_BIT_SIZE / Self::BLOCK_BIT_SIZE),
+                    );
                 }
 
                 debug_assert!(block_idx < counts.len());
